@@ -485,6 +485,21 @@ theorem lookup_setVar (l : List (String × Var)) (n : String) (v : Var) :
         simp only [beq_eq_false_iff_ne, ne_eq]; exact fun e => h e.symm
       simp [setVar, h, List.lookup, h', ih]
 
+theorem lookup_setVar_ne (l : List (String × Var)) (n m : String) (v : Var) (h : m ≠ n) :
+    (setVar l n v).lookup m = l.lookup m := by
+  induction l with
+  | nil =>
+    have h' : (m == n) = false := by simpa using h
+    simp [setVar, List.lookup, h']
+  | cons p t ih =>
+    obtain ⟨k, w⟩ := p
+    by_cases hk : k = n
+    · subst hk
+      have h' : (m == k) = false := by simpa using h
+      simp [setVar, List.lookup, h']
+    · simp only [setVar, hk, if_false, List.lookup]
+      rw [ih]
+
 theorem lookupCtxs_none (cs : List (List (String × Var))) (n : String)
     (h : ∀ c ∈ cs, c.lookup n = none) : lookupCtxs cs n = none := by
   induction cs with
